@@ -820,6 +820,7 @@ def translate(src):
     bus = next(n for n in tree.body if isinstance(n, ast.ClassDef) and n.name == 'Bus')
     fns = {n.name: n for n in bus.body if isinstance(n, ast.FunctionDef)}
     consts = {}
+    inlining = []
 
     def state_of(v):
         if isinstance(v, ast.Attribute) and isinstance(v.value, ast.Name) and v.value.id == 'states' and v.attr in STN:
@@ -865,6 +866,15 @@ def translate(src):
                 raise Untranslatable('publish args')
             if _is_self_attr(f) and f.attr in API and not st.value.args:
                 return [[3, API[f.attr]]]
+            if (_is_self_attr(f) and f.attr in fns and f.attr.startswith('_') and not f.attr.startswith('__')
+                    and not st.value.args and not st.value.keywords and f.attr not in inlining
+                    and not any(isinstance(x, (ast.Return, ast.Yield, ast.YieldFrom)) for x in ast.walk(fns[f.attr]))):
+                # a private helper method without return, called as a statement: its statements, in place
+                inlining.append(f.attr)
+                try:
+                    return [s for x in fns[f.attr].body for s in step(x, in_handler)]
+                finally:
+                    inlining.pop()
             if isinstance(f, ast.Attribute) and isinstance(f.value, ast.Name):
                 if f.value.id == 'atexit' and f.attr == 'register':
                     return []
